@@ -68,9 +68,14 @@ class Blockwise(ArrayExpr):
                 self._meta_provided, ndim=self.ndim, dtype=self._meta_provided.dtype
             )
         else:
-            return compute_meta(
+            meta = compute_meta(
                 self.func, self.operand("dtype"), *self.args[::2], **self.kwargs
             )
+            if meta is None and self.operand("dtype") is not None:
+                # the function cannot be applied to empty inputs: describe the
+                # result by an empty array of the declared dtype
+                meta = meta_from_array(None, ndim=self.ndim, dtype=self.operand("dtype"))
+            return meta
 
     @cached_property
     def chunks(self):
@@ -225,9 +230,14 @@ class Elemwise(Blockwise):
 
     @cached_property
     def _meta(self):
-        return compute_meta(
+        meta = compute_meta(
             self._info[0], self.dtype, *self.elemwise_args, **self.kwargs
         )
+        if meta is None:
+            # the metas of the operands cannot be combined (e.g. they do not
+            # broadcast): describe the result by an empty array of its dtype
+            meta = meta_from_array(None, ndim=self.ndim, dtype=self.dtype)
+        return meta
 
     @property
     def elemwise_args(self):
